@@ -2,9 +2,10 @@
 //@ assume: pmmr::bintree_postorder_height / bintree_leftmost are used through their contracts (height <= 63; proved against the explicit tree in C07/pmmr_arith); here the height is an uninterpreted function hgt(pos)
 //@ assume: positions < 2^32 - 1 (`as u32` narrowing) and every partial shift sum fits in u64 -- stated as preconditions (`fits`), true for any MMR with < 2^32 nodes since pruned subtrees are disjoint
 //@ assume: decided here: the prune-list representation invariant (caches = prefix sums of per-root contributions in position order, one entry per root) and what the shift lookups return; file rewriting during compaction, reopen and the chain-level statement are not decided (DESIGN 6 C08)
+//@ assume: PruneList::flush: the disk content of the prune-list file is a ghost out-parameter (T6: `Tracked(disk)` added to flush and to save_via_temp_file, whose contract is assumed here and its step order decided in C09/save_via_temp_file); the writer closure is lifted and verified (T7); `serialize::<Portable>()` => serialize_portable(), a function of the elements; run_optimize keeps them; `if let Some(ref path) = self.path` => `if let Some(path) = &self.path`
 //@ assume: 64-bit target
-//@ assumed_items: 13
-//@ fns: PruneList::build_shift_cache, PruneList::build_leaf_shift_cache, PruneList::init_caches, PruneList::get_shift, PruneList::get_leaf_shift, PruneList::get_total_shift, PruneList::get_total_leaf_shift, PruneList::calculate_next_shift, PruneList::calculate_next_leaf_shift, PruneList::append_single, PruneList::cleanup_subtree, PruneList::is_pruned_root, PruneList::is_pruned
+//@ assumed_items: 17
+//@ fns: PruneList::build_shift_cache, PruneList::build_leaf_shift_cache, PruneList::init_caches, PruneList::get_shift, PruneList::get_leaf_shift, PruneList::flush (+ its writer closure), PruneList::get_total_shift, PruneList::get_total_leaf_shift, PruneList::calculate_next_shift, PruneList::calculate_next_leaf_shift, PruneList::append_single, PruneList::cleanup_subtree, PruneList::is_pruned_root, PruneList::is_pruned
 //@ import: use vstd::arithmetic::power2::*;
 //@ import: use vstd::bits::*;
 global size_of usize == 8;
@@ -25,11 +26,41 @@ pub open spec fn increasing(s: Seq<int>) -> bool {
     forall|i: int, j: int| 0 <= i < j < s.len() ==> s[i] < s[j]
 }
 
+/// the portable serialisation of a bitmap (a function of its elements)
+pub uninterp spec fn sp_ser(s: Seq<int>) -> Seq<u8>;
+pub struct IoError { pub k: u8 }
+pub mod io { pub type Result<T> = std::result::Result<T, super::IoError>; }
+/// the temp file handed to the writer closure: the bytes written to it so far
+pub struct TmpFile { pub written: Ghost<Seq<u8>> }
+impl TmpFile {
+    #[verifier::external_body]
+    pub fn write_all(&mut self, b: &Vec<u8>) -> (r: io::Result<()>)
+        ensures r.is_ok() ==> final(self).written@ == old(self).written@ + b@
+    { unimplemented!() }
+}
+/// what the prune-list file holds on disk (ghost out-parameter of flush)
+pub tracked struct Disk { pub ghost content: Seq<u8> }
+pub struct WriteBitmap<'a> { pub pl: &'a PruneList }
+/// save_via_temp_file(path, ext, f): Ok means `path` now holds exactly what f wrote; Err leaves `path` as it was (step order: C09/save_via_temp_file)
+#[verifier::external_body]
+pub fn save_via_temp_file<'a>(path: &ExtPath, ext: &str, f: WriteBitmap<'a>, Tracked(disk): Tracked<&mut Disk>) -> (r: io::Result<()>)
+    ensures r.is_ok() ==> final(disk).content == sp_ser(f.pl.bitmap.seq()), r.is_err() ==> final(disk).content == old(disk).content
+{ unimplemented!() }
 impl Bitmap {
     pub uninterp spec fn seq(&self) -> Seq<int>;
     pub open spec fn wf(&self) -> bool {
         increasing(self.seq()) && forall|i: int| 0 <= i < self.seq().len() ==> 1 <= #[trigger] self.seq()[i] <= 0xffff_ffff
     }
+    /// re-encodes the containers; the elements are unchanged
+    #[verifier::external_body]
+    pub fn run_optimize(&mut self) -> (r: bool)
+        ensures final(self).seq() == old(self).seq()
+    { unimplemented!() }
+    /// stands in for `serialize::<Portable>()`
+    #[verifier::external_body]
+    pub fn serialize_portable(&self) -> (r: Vec<u8>)
+        ensures r@ == sp_ser(self.seq())
+    { unimplemented!() }
     #[verifier::external_body]
     pub fn rank(&self, x: u32) -> (r: u64)
         ensures r as nat == rank_spec(self.seq(), x as int), r <= self.seq().len()
@@ -409,6 +440,22 @@ impl PruneList {
 //@+    r == (self.bitmap.seq().contains(pos0 + 1)
 //@+          || ({ let k = rank_spec(self.bitmap.seq(), pos0 + 1) as int;
 //@+                k < self.bitmap.seq().len() && leftmost(self.bitmap.seq()[k] - 1) <= pos0 && pos0 <= self.bitmap.seq()[k] - 1 })),
+//@ end
+//@ extract store/src/prune_list.rs :: impl PruneList::flush
+//@   closure 1 lifted_as `fn write_bitmap(&self, file: &mut TmpFile) -> io::Result<()>`
+//@   rewrite `self.bitmap.serialize::<Portable>()` => `self.bitmap.serialize_portable()`
+//@   ensures:
+//@+    r.is_ok() ==> final(file).written@ == old(file).written@ + sp_ser(self.bitmap.seq()),
+//@ end
+//@ extract store/src/prune_list.rs :: impl PruneList::flush
+//@   sigrewrite `pub fn flush(&mut self)` => `pub fn flush(&mut self, Tracked(disk): Tracked<&mut Disk>)`
+//@   closure 1 replaced_by `WriteBitmap { pl: &*self }, Tracked(disk)`
+//@   rewrite `if let Some(ref path) = self.path {` => `if let Some(path) = &self.path {`
+//@   ensures:
+//@+    // Ok with a path: the file holds the CURRENT prune list; the list itself and its caches are untouched
+//@+    r.is_ok() && old(self).path is Some ==> final(disk).content == sp_ser(old(self).bitmap.seq()),
+//@+    r.is_err() || old(self).path is None ==> final(disk).content == old(disk).content,
+//@+    final(self).bitmap.seq() == old(self).bitmap.seq(), final(self).shift_cache == old(self).shift_cache, final(self).leaf_shift_cache == old(self).leaf_shift_cache,
 //@ end
 }
 //@ canary get_shift: r == 0
